@@ -365,13 +365,13 @@ func c16Configs(c *Check) {
 		cs := cases[i]
 		dir := filepath.Join(root, fmt.Sprintf("c%d", i))
 		files := map[string]string{
-			"entry.tsx":                   "import 'pkg'; import 'pkg/sub'; import x from '#x'; import './local'; export class K { x = 1; @dec y } export const j = <a/>; enum E { A }",
-			"local.ts":                    "export let a = 1",
-			"node_modules/pkg/index.js":   "module.exports = 1",
-			"node_modules/pkg/x.js":       "export default 2",
-			"node_modules/pkg/sub.js":     "export default 3",
+			"entry.tsx":                     "import 'pkg'; import 'pkg/sub'; import x from '#x'; import './local'; export class K { x = 1; @dec y } export const j = <a/>; enum E { A }",
+			"local.ts":                      "export let a = 1",
+			"node_modules/pkg/index.js":     "module.exports = 1",
+			"node_modules/pkg/x.js":         "export default 2",
+			"node_modules/pkg/sub.js":       "export default 3",
 			"node_modules/pkg/package.json": "{\"name\":\"pkg\"}",
-			"package.json":                "{\"name\":\"root\",\"imports\":{\"#x\":\"./local.ts\"}}",
+			"package.json":                  "{\"name\":\"root\",\"imports\":{\"#x\":\"./local.ts\"}}",
 		}
 		if cs.pkg != "" || cs.ts == "" {
 			files["node_modules/pkg/package.json"] = cs.pkg
